@@ -29,6 +29,22 @@ class HarnessError(Exception):
     """Something is wrong with the harness/model, not with curtsies."""
 
 
+def environment_artefact(e):
+    """Is this exception, raised out of library code during a simulated run, an artefact of the stub
+    environment rather than behaviour of the library?  (a) the library used a method the stand-in streams
+    do not have; (b) the real OS answered EBADF/ENOTTY: a system call that is not behind a seam was made on
+    a simulated descriptor.  Such a run is a harness error (exit 2), never a verdict."""
+    import errno
+    if isinstance(e, HarnessError):
+        return True
+    if isinstance(e, (AttributeError, TypeError)) and ("SimOut" in str(e) or "SimIn" in str(e)):
+        return True
+    if isinstance(e, OSError) and not getattr(e, "sim", False) and not isinstance(e, BlockingIOError) \
+            and e.errno in (errno.EBADF, errno.ENOTTY, errno.ENOTSOCK):
+        return True
+    return False
+
+
 class Log:
     """Event log: incremental SHA-1 over reprs + optional kept entries."""
 
